@@ -17,6 +17,7 @@ const (
 type shEntry struct {
 	dl   int64
 	prog []hx.T
+	via  int64
 }
 
 type shadow struct {
@@ -25,6 +26,7 @@ type shadow struct {
 	next  int64
 	clock int64
 	armed bool
+	via   int64
 }
 
 func newShadow() *shadow { return &shadow{pend: map[int64]shEntry{}, clock: clock0} }
@@ -36,7 +38,7 @@ func (s *shadow) exec(a hx.T) {
 			s.next = 0
 		}
 		s.next++
-		s.pend[s.next] = shEntry{s.clock + timeout, hx.Terms(a.Args[0])}
+		s.pend[s.next] = shEntry{s.clock + timeout, hx.Terms(a.Args[0]), s.via}
 		s.armed = true
 	case "ANoRoute":
 		for _, x := range hx.Terms(a.Args[0]) {
@@ -100,6 +102,11 @@ func (s *shadow) apply(o hx.T) {
 		if v := o.Int(0); v >= 0 && v <= maxReqID && len(s.pend) == 0 {
 			s.next = v
 		}
+	case "Via":
+		s.via = 0
+		if v := o.Int(0); v >= 0 && v <= 5 {
+			s.via = v
+		}
 	}
 }
 
@@ -133,9 +140,12 @@ func genAct(r *rand.Rand, depth int, tags map[string]bool) hx.T {
 	case p < 76:
 		tags["unser"] = true
 		return hx.C("AUnser", genProg(r, depth, tags))
-	case p < 88:
+	case p < 85:
 		tags["notify"] = true
 		return hx.T{Name: "ANotify"}
+	case p < 89:
+		tags["notify-noroute"] = true
+		return hx.T{Name: "ANotifyNR"}
 	default:
 		tags["noroute"] = true
 		return hx.C("ANoRoute", genProg(r, depth, tags))
@@ -176,6 +186,15 @@ func gen(r *rand.Rand, maxLen int) ([]hx.T, []string) {
 		tags["wrap"] = true
 		push(hx.C("SetNext", maxReqID-int64(r.Intn(4))))
 	}
+	setVia := func() {
+		v := int64(r.Intn(6))
+		tags[[]string{"via-direct", "via-default-route", "via-route-func-nomethod", "via-route-func-silent",
+			"via-querysession", "via-kick"}[v]] = true
+		push(hx.C("Via", v))
+	}
+	if r.Intn(10) < 7 {
+		setVia()
+	}
 	n := 1 + r.Intn(maxLen)
 	many := r.Intn(5) == 0
 	for len(ops) < n {
@@ -191,7 +210,14 @@ func gen(r *rand.Rand, maxLen int) ([]hx.T, []string) {
 			if len(ids) == 0 {
 				continue
 			}
-			push(hx.C("Resp", hx.Pick(r, ids), genKind(r, tags)))
+			id := hx.Pick(r, ids)
+			if sh.pend[id].via == 2 && r.Intn(3) > 0 {
+				// let the peer's dispatcher answer "no method" itself
+				tags["dispatch-no-method"] = true
+				push(hx.C("Resp", id, hx.C("KErr", int64(-1))))
+			} else {
+				push(hx.C("Resp", id, genKind(r, tags)))
+			}
 		case p < 60: // duplicate / late: an id already completed
 			if len(sh.done) == 0 {
 				continue
@@ -241,9 +267,14 @@ func gen(r *rand.Rand, maxLen int) ([]hx.T, []string) {
 			if len(sh.done) > before+1 {
 				tags["multi-timeout"] = true
 			}
-		case p < 97:
+		case p < 96:
 			tags["resp-notify"] = true
 			push(hx.T{Name: "RespNotify"})
+		case p < 97:
+			tags["direct-notify"] = true
+			push(hx.C("DirectNotify", int64(r.Intn(2))))
+		case p < 98:
+			setVia()
 		default:
 			tags["resp-nosender"] = true
 			push(hx.C("RespNoSender", int64(r.Intn(6))))
@@ -290,6 +321,30 @@ func boundaryCases() [][]hx.T {
 	}
 }
 
+// the routed branch of app.Request / app.Notify and the peer's API dispatcher
+func routedCases() [][]hx.T {
+	req := hx.C("Do", hx.C("AReq", []any{}))
+	reqRe := hx.C("Do", hx.C("AReq", list(hx.C("AReq", []any{}), hx.T{Name: "ANotify"}, hx.T{Name: "ANotifyNR"}, hx.C("ANoRoute", []any{}))))
+	note := hx.C("Do", hx.T{Name: "ANotify"})
+	noteNR := hx.C("Do", hx.T{Name: "ANotifyNR"})
+	nr := hx.C("Do", hx.C("ANoRoute", list(hx.C("AReq", []any{}))))
+	unser := hx.C("Do", hx.C("AUnser", []any{}))
+	resp := func(id int64, k any) hx.T { return hx.C("Resp", id, k) }
+	var out [][]hx.T
+	for v := int64(0); v <= 5; v++ {
+		out = append(out,
+			[]hx.T{hx.C("Via", v), req, reqRe, note, noteNR, nr, unser,
+				resp(1, hx.C("KOk", 11)), resp(1, hx.C("KOk", 11)), resp(2, hx.C("KErr", int64(-1))), resp(3, "KNil"),
+				resp(4, hx.C("KErr", 7)), hx.C("DirectNotify", 0), hx.T{Name: "RespNotify"}, hx.C("DirectNotify", 1),
+				hx.C("RespNoSender", 3), hx.C("Advance", timeout+1), tick(), tick()},
+			[]hx.T{hx.C("Via", v), req, hx.C("Via", (v+1)%6), req, hx.C("Via", (v+3)%6), req, note,
+				resp(3, hx.C("KErr", int64(-1))), resp(2, hx.C("KErr", int64(-1))), resp(1, hx.C("KErr", int64(-1))),
+				resp(2, hx.C("KBad", 1)), hx.C("Advance", timeout+1), tick(), tick()},
+		)
+	}
+	return out
+}
+
 func realTimerCases(tier string) [][]hx.T {
 	req := hx.C("Do", hx.C("AReq", []any{}))
 	reqRe := hx.C("Do", hx.C("AReq", list(hx.C("AReq", []any{}))))
@@ -321,10 +376,13 @@ func enumerate(L int, emit func([]hx.T)) {
 	}
 	suffix := []hx.T{hx.C("Advance", timeout+1), tick(), tick()}
 	cur := make([]hx.T, L)
+	count := int64(0)
 	var rec func(d int)
 	rec = func(d int) {
 		if d == L {
-			emit(append(append([]hx.T{}, cur...), suffix...))
+			// the way requests reach the peer rotates through the six variants
+			count++
+			emit(append(append([]hx.T{hx.C("Via", count%6)}, cur...), suffix...))
 			return
 		}
 		for _, a := range alpha {
